@@ -169,14 +169,34 @@ class Vocab:
         return out
 
 def text(factors, rng=None):
-    """Unit expression: numerator factors joined by `*`, one `/`, denominator factors joined by `*`;
-    sometimes negative exponents instead of `/`."""
+    """Unit expression: numerator factors joined by `*` (with an rng: sometimes by a blank - juxtaposition multiplies), one `/`,
+    denominator factors joined the same way (everything after the `/` is inverted); sometimes negative exponents instead of `/`."""
     def f(e, p):
         return e["word"] if p == 1 else "%s^%d" % (e["word"], p)
+    def join(fs):
+        j = "*"
+        if rng is not None and len(fs) > 1 and rng.random() < 0.2:
+            j = " "
+        return j.join(fs)
     num = [(e, p) for e, p in factors if p > 0]
     den = [(e, p) for e, p in factors if p < 0]
     if not den:
-        return "*".join(f(e, p) for e, p in num)
+        return join([f(e, p) for e, p in num])
     if not num or (rng is not None and rng.random() < 0.25):
-        return "*".join(f(e, p) for e, p in num + den)
-    return "*".join(f(e, p) for e, p in num) + "/" + "*".join(f(e, -p) for e, p in den)
+        return join([f(e, p) for e, p in num + den])
+    return join([f(e, p) for e, p in num]) + "/" + join([f(e, -p) for e, p in den])
+
+def confusables(V):
+    """Triples (a, b, ab) of vocabulary entries where the WORD of `ab` is the words of `a` and `b` glued together but means something
+    else than their product (m s / ms, m N / mN, m in / min, c d / cd, T m / Tm ...): anything that identifies a unit text after
+    dropping its blanks confuses the two (seeds C03-h, C04-h)."""
+    by_word = {e["word"]: e for e in V.entries}
+    short = [e for e in V.entries if len(e["word"]) <= 3]
+    out = []
+    for a in short:
+        for b in short:
+            ab = by_word.get(a["word"] + b["word"])
+            if ab is None or a["key"] == b["key"]:
+                continue
+            out.append((a, b, ab))
+    return out
